@@ -132,6 +132,11 @@ class World(object):
             if m:
                 name = list(m)[op[2] % len(m)]
                 self._refused(lambda: e.add(name, materialize(op[3], self.cache)), "add_existing")
+        elif kind == "add_existing_same_value":
+            # adding an existing name is refused also when the value offered is the one it already has
+            if m:
+                name = list(m)[op[2] % len(m)]
+                self._refused(lambda: e.add(name, m[name]), "add_existing")
         elif kind == "remove":
             if m:
                 name = list(m)[op[2] % len(m)]
@@ -205,6 +210,7 @@ def op_strategy():
         st.tuples(st.just("add"), idx, name_strategy(), value_strategy()),
         st.tuples(st.just("add"), idx, name_strategy(), value_strategy()),
         st.tuples(st.just("add_existing"), idx, idx, value_strategy()),
+        st.tuples(st.just("add_existing_same_value"), idx, idx),
         st.tuples(st.just("remove"), idx, idx),
         st.tuples(st.just("remove"), idx, idx),
         st.tuples(st.just("remove_missing"), idx, name_strategy()),
